@@ -108,7 +108,7 @@ def ask(req):
 @st.composite
 def ev_cfg(draw, it, labels):
     imets = draw(st.sampled_from([None, ["DSC"], ["DSC", "IOU"], ["IOU", "ASSD", "RVD"], ["DSC", "IOU", "ASSD", "RVD"]]))
-    gmets = draw(st.sampled_from([None, [], ["DSC", "IOU"], ["DSC", "clDSC"]]))
+    gmets = draw(st.sampled_from([None, [], ["DSC", "IOU"], ["IOU", "DSC"], ["RVD", "ASSD", "DSC"], ["DSC", "clDSC"]]))
     eff_i = imets or ["DSC", "IOU", "ASSD", "RVD"]
     dec = None
     if draw(st.integers(0, 2)) == 0:
@@ -150,7 +150,7 @@ def step(draw, nev, nin):
         s["value"] = draw(st.booleans())
     elif op == "construct":
         s["what"] = draw(st.sampled_from(["evaluator_default", "handler_default", "naive_default", "merge_default", "evaluator_random_used",
-                                          "evaluator_decision_outside_metrics", "evaluator_no_global_metrics", "approximator_default_used", "groups_object"]))
+                                          "evaluator_decision_outside_metrics", "evaluator_no_global_metrics", "evaluator_global_metrics_outside_instance_metrics", "approximator_default_used", "groups_object"]))
     elif op == "aggregate":
         s.update({"log_times": draw(st.booleans()), "stat": draw(st.booleans())})
     elif op == "load_shipped":
@@ -395,9 +395,19 @@ def check(case, stats):
                         H.lib_call(MaximizeMergeMatching)
                     elif w == "evaluator_decision_outside_metrics":
                         # legal to construct (evaluate would refuse): must not influence any other object
-                        H.lib_call(lambda: Panoptica_Evaluator(decision_metric=lib.metric("clDSC"), decision_threshold=0.5))
+                        e3 = H.lib_call(lambda: Panoptica_Evaluator(expected_input=lib.input_type(case["input"]), decision_metric=lib.metric("clDSC"), decision_threshold=0.5,
+                                                                    instance_approximator=lib.approximator(None) if case["input"] == "SEMANTIC" else None,
+                                                                    instance_matcher=lib.matcher({"kind": "naive", "metric": "IOU", "thr": 0.5}) if case["input"] != "MATCHED_INSTANCE" else None))
+                        try:  # ... and someone tries it anyway (it is refused)
+                            with H.quiet():
+                                e3.evaluate(*arrays[j])
+                        except Exception:  # noqa
+                            stats.count("side_operations_refused")
                     elif w == "evaluator_no_global_metrics":
                         H.lib_call(lambda: Panoptica_Evaluator(global_metrics=[], decision_metric=lib.metric("IOU"), decision_threshold=0.5))
+                    elif w == "evaluator_global_metrics_outside_instance_metrics":
+                        # default instance metrics, global metrics that are not among them
+                        H.lib_call(lambda: Panoptica_Evaluator(global_metrics=[lib.metric("DSC"), lib.metric("clDSC"), lib.metric("RVD")]))
                     elif w == "approximator_default_used":
                         from panoptica import ConnectedComponentsInstanceApproximator, SemanticPair
                         a_ = ConnectedComponentsInstanceApproximator()
